@@ -581,7 +581,9 @@ def extract_json_contract(I, args, kwargs):
             (k, sub), = props.items()
             if k in schema.get('required', []):
                 string_facts(I, args_[0].t, sub)
-    return instance(I, schema, 'body')
+    inst = instance(I, schema, 'body')
+    I.event('extract_json.result', inst)
+    return inst
 
 
 def validate_query_params_contract(I, args, kwargs):
